@@ -111,7 +111,7 @@ def check_world(rec, case, mjm, qpos, c, rng):
     n = np.asarray(c["frame"][b], dtype=np.float64).reshape(-1)[:3]
     ln = np.linalg.norm(n)
     coincident = t1 not in ("plane", "hfield") and np.linalg.norm(mjd.geom_xpos[g1] - mjd.geom_xpos[g2]) < 1e-6
-    deepest[key] = (b, dist, n, coincident)
+    deepest[key] = [b, dist, n, coincident, ""]
     if t1 == "hfield":
       # a height field is the graph of a function: the direction from the terrain to the other geom never points downwards
       up = np.asarray(mjd.geom_xmat[g1], dtype=np.float64).reshape(3, 3)[:, 2]
@@ -138,6 +138,17 @@ def check_world(rec, case, mjm, qpos, c, rng):
       rec.worst("plane_normal", dn / 1e-5)
       if dn > 3e-4:
         rec.viol(f"normal-not-plane-normal:{pname}", f"contact normal {n} vs plane normal {o1.mat[:, 2]} {ctx}")
+    # mechanism tags for the signatures
+    tag = ""
+    if pname == "capsule-capsule" and np.linalg.norm(np.cross(o1.mat[:, 2], o2.mat[:, 2])) < 1e-4:
+      tag = ":parallel-axes"
+    dmj = None
+    if t1 != "hfield":
+      dmj = float(mujoco.mj_geomDistance(mjm, mjd, g1, g2, 1.0, None))
+      if abs(dmj - dist) < 1e-5:
+        tag += ":same-value-in-mujoco"
+    ctx += f" mj_geomDistance={dmj}"
+    deepest[key][4] = tag.replace(":same-value-in-mujoco", "")
     gap = _col.support_gap(o1, o2, n)
     rec.check()
     judged += 1
@@ -147,7 +158,7 @@ def check_world(rec, case, mjm, qpos, c, rng):
       r = 0.0
     rec.worst(f"dist_vs_support_gap[{num}]", r / 30)
     if r > 30:
-      rec.viol(f"dist-vs-support-gap:{pname}", f"dist={dist:.6g} but the float64 separation along the reported normal is {gap:.6g} (normal {n}) {ctx}")
+      rec.viol(f"dist-vs-support-gap:{pname}{tag}", f"dist={dist:.6g} but the float64 separation along the reported normal is {gap:.6g} (normal {n}) {ctx}")
     elif r > 1:
       rec.count("grey:dist_vs_support_gap")
     cf = _col.closed_form_dist(o1, o2)
@@ -157,7 +168,7 @@ def check_world(rec, case, mjm, qpos, c, rng):
       rec.worst(f"dist_vs_closed_form[{num}]", r / 30)
       rec.cover("closed_form:" + pname, 1)
       if r > 30:
-        rec.viol(f"dist-vs-closed-form:{pname}", f"dist={dist:.6g} but the closed-form signed distance is {cf:.6g} {ctx}")
+        rec.viol(f"dist-vs-closed-form:{pname}{tag}", f"dist={dist:.6g} but the closed-form signed distance is {cf:.6g} {ctx}")
       elif r > 1:
         rec.count("grey:dist_vs_closed_form")
     elif t1 != "plane" and not deep:
@@ -167,7 +178,7 @@ def check_world(rec, case, mjm, qpos, c, rng):
       rec.worst(f"dist_maximality[{num}]", r / 30)
       rec.cover("maximality:" + pname, 1)
       if r > 30:
-        rec.viol(f"dist-not-maximal:{pname}", f"dist={dist:.6g} along normal {n}, but direction {bn} separates the shapes by {best:.6g}: the reported normal is not the direction of signed distance {ctx}")
+        rec.viol(f"dist-not-maximal:{pname}{tag}", f"dist={dist:.6g} along normal {n}, but direction {bn} separates the shapes by {best:.6g}: the reported normal is not the direction of signed distance {ctx}")
       elif r > 1:
         rec.count("grey:dist_maximality")
     # (d) pos midway between the surfaces
@@ -185,7 +196,7 @@ def check_world(rec, case, mjm, qpos, c, rng):
         r = abs(s) / tol["surf"]
         rec.worst(f"point_on_surface[{num}]", r / 30)
         if r > 30:
-          rec.viol(f"point-off-surface:{pname}:{side}", f"pos {'-' if side == 'geom1' else '+'} n*dist/2 = {p} is {s:.6g} away from the surface of {side} ({o.type}); dist={di:.6g} {ctx}")
+          rec.viol(f"point-off-surface:{pname}:{side}{tag}", f"pos {'-' if side == 'geom1' else '+'} n*dist/2 = {p} is {s:.6g} away from the surface of {side} ({o.type}); dist={di:.6g} {ctx}")
         elif r > 1:
           rec.count("grey:point_on_surface")
   return deepest, judged
@@ -236,7 +247,7 @@ def run_case(case):
     for w, q in enumerate(qs):
       q2 = np.array(q, dtype=np.float64)
       mv = {}
-      for key, (b, dist, n, coincident) in deep_all[w].items():
+      for key, (b, dist, n, coincident, _tag) in deep_all[w].items():
         body = int(mjm.geom_bodyid[key[1]])
         if coincident or np.linalg.norm(n) < 0.5 or body in mv:
           continue
@@ -251,7 +262,7 @@ def run_case(case):
     for w in range(len(qs)):
       g2 = _col.group_by_pair(cw2[w])
       for body, key in moved[w].items():
-        b, dist, n, _ = deep_all[w][key]
+        b, dist, n, _, mtag = deep_all[w][key]
         t1, t2 = _col.GEOM_NAMES[int(mjm.geom_type[key[0]])], _col.GEOM_NAMES[int(mjm.geom_type[key[1]])]
         pname = f"{t1}-{t2}"
         # the actual displacement after float32 rounding
@@ -270,7 +281,7 @@ def run_case(case):
           rec.count("metamorphic:ok")
         elif ratio < 0.0 and dist > -0.5 * minsize:
           rec.viol(
-            f"normal-direction:{pname}",
+            f"normal-direction:{'hfield' if t1 == 'hfield' else pname}{mtag}",
             f"world {w} geoms {key}: moving geom2 by {step:.4g} along the reported normal {n} changed the pair's deepest dist from {dist:.6g} to {d2:.6g} "
             f"(slope {ratio:.3g}, expected +1): the normal does not point from geom1 to geom2",
           )
